@@ -76,10 +76,13 @@ package server
 //@   ensures typederr: istype(result2, "*cache.Error") ==> as(result2, "*cache.Error") != nil
 //@ iface (io.Closer).Close(c)
 //@   pure
+//@   gmodifies icloseN, iclosed
+//@   gensures icloseN == old(icloseN) + 1 && iclosed == payload(c)
 
 //@ func (s *grpcServer) getBlobData(ctx context.Context, hash string, size int64) ([]byte, error)
 //@   serves C02 C14
 //@   requires s != nil && s.cache != nil && ctx != nil
+//@   modifies icloseN, iclosed
 //@   ensures[C02] negsize: size < 0 ==> result1 != nil
 //@   call Get#* asserts[C02] ask: arg2 == 1 && arg3 == hash && arg4 == size && arg5 == 0 && size > 0
 
@@ -88,4 +91,4 @@ package server
 //@   serves C14
 //@   requires s != nil && s.cache != nil && s.accessLogger != nil && ctx != nil && resp != nil && dir != nil
 //@   noframe
-//@   modifies resp.Directories, elems(resp.Directories)
+//@   modifies resp.Directories, elems(resp.Directories), icloseN, iclosed
